@@ -232,6 +232,14 @@ class ForwardHarness:
         except PyExc as e:
             self.fail(ctx, oid + "/no-exception", f"fluent method raised {e.value!r} {getattr(e.value, 'fields', '')} where ops.{mname} accepts the call")
             return
+        except Unsupported as e:
+            if str(e).startswith("call of SV<") and any(isinstance(a, SV) and repr(a) in str(e) for a in list(args) + list(kwargs.values())):
+                # the forwarding contract: arguments are handed on to ops.<name>(...) as they are - the piped form never calls a mapper /
+                # factory when the pipeline is BUILT (only per subscription / per element), so a method that does is a different operator
+                self.fail(ctx, oid + "/hands-its-arguments-on-uncalled", f"the fluent method itself calls one of its arguments ({str(e)[8:]}) while "
+                          f"the pipeline is being built; ops.{mname}(...) only stores it")
+                return
+            raise
         if not (isinstance(res, Opaque) and res.kind == "source"):
             self.fail(ctx, oid + "/is-pipe", f"result is not self.pipe(...): {res!r}")
             return
